@@ -3,6 +3,7 @@ package prgx
 
 import (
 	"bytes"
+	"encoding/json"
 	"fmt"
 	"math/rand"
 	"strconv"
@@ -23,6 +24,24 @@ type Violation struct {
 type StreamPos struct {
 	B uint64 `json:"b"` // 64-byte blocks
 	O uint64 `json:"o"` // offset inside the block
+}
+
+// UnmarshalJSON: the specification writes the blocks at the end of the stream as negative numbers (-1 = block 2^32 - 1)
+func (p *StreamPos) UnmarshalJSON(data []byte) error {
+	var raw struct {
+		B int64  `json:"b"`
+		O uint64 `json:"o"`
+	}
+	if err := json.Unmarshal(data, &raw); err != nil {
+		return err
+	}
+	p.O = raw.O
+	if raw.B < 0 {
+		p.B = uint64(int64(1)<<32 + raw.B)
+	} else {
+		p.B = uint64(raw.B)
+	}
+	return nil
 }
 
 type StreamOp struct {
@@ -128,7 +147,13 @@ func RunStream(c StreamCase) (res Result) {
 			gens = append(gens, g2)
 		}
 	}
-	// whatever is derived from the stream continues identically after Store/Restore
+	// whatever is derived from the stream continues identically after Store/Restore (not for generators placed in the last blocks
+	// of the stream: the draws below would run beyond its end)
+	for _, op := range c.Hist {
+		if op.Op == "craft" && op.From.B >= 1<<32-8 {
+			return
+		}
+	}
 	for gi, g := range gens {
 		st := g.Store()
 		g2, err := random.RestoreChacha20PRG(st)
